@@ -1,0 +1,54 @@
+//go:build verif
+
+package app
+
+import "sync"
+
+// Verification hooks (build tag "verif" only). See /verif/DESIGN.md §3.7.
+
+// VerifHook, when set, receives one event per instrumented linearization point.
+var VerifHook func(ev string, kv ...any)
+
+var (
+	verifGateMu sync.Mutex
+	verifGates  = map[string]chan struct{}{}
+	// VerifGateReached, when set, is called (outside any verif lock) when an armed gate is reached.
+	VerifGateReached func(point string)
+)
+
+func verifTrace(ev string, kv ...any) {
+	if h := VerifHook; h != nil {
+		h(ev, kv...)
+	}
+}
+
+// VerifArmGate makes the next verifGate(point) calls block until VerifReleaseGate(point).
+func VerifArmGate(point string) {
+	verifGateMu.Lock()
+	verifGates[point] = make(chan struct{})
+	verifGateMu.Unlock()
+}
+
+// VerifReleaseGate releases all goroutines blocked at point and disarms it.
+func VerifReleaseGate(point string) {
+	verifGateMu.Lock()
+	ch := verifGates[point]
+	delete(verifGates, point)
+	verifGateMu.Unlock()
+	if ch != nil {
+		close(ch)
+	}
+}
+
+func verifGate(point string) {
+	verifGateMu.Lock()
+	ch := verifGates[point]
+	verifGateMu.Unlock()
+	if ch == nil {
+		return
+	}
+	if f := VerifGateReached; f != nil {
+		f(point)
+	}
+	<-ch
+}
